@@ -378,6 +378,18 @@ def check_walks(rep, fm):
                 rep.check(bool(joined), rule, "%s filters directory entries with isfile/isdir on the joined path" % e.func.split(".")[-1], e.func, e.node,
                           "directory listing via %s does not exclude sub-directories by testing os.path.isfile/isdir on the full path: a "
                           "sub-directory is opened as a PEL file outside the per-file barrier" % e.data[0], node=e.node)
+                # ... and that test really guards every entry that is kept (with `a and b or c` it guards only part of them)
+                keeps = [x for x in fm.events if x.kind == "append" and x.func == e.func and x.loops and x.seq > e.seq]
+                tests = []
+                for x in joined:
+                    t_ = Op("call:" + x.data[0], *[fm.norm(a_) for a_ in x.data[1]])
+                    tests.append(t_ if x.data[0].endswith("isfile") else not_(t_))
+                for k_ in keeps:
+                    okk = bool(tests) and implies(fm.norm(k_.guard), or_(*tests))[0]
+                    rep.check(okk, rule, "%s:%s an entry is kept only if the isfile/isdir test passed" % (e.func.split(".")[-1], getattr(k_.node, "lineno", "?")),
+                              e.func, k_.node, "an entry of the directory listing is kept on a path on which the isfile/isdir test was not made or "
+                              "did not pass (operator precedence / short circuit): a sub-directory whose name passes the other tests is opened as a "
+                              "PEL file outside the per-file barrier", node=k_.node)
 
 
 def check_no_stream_redirection(rep, prog, rule):
